@@ -80,7 +80,7 @@ func (q *c10Parser) block() []c10Stmt {
 			out = append(out, c10Stmt{Op: 'T', A: a, B: b})
 		case 'D':
 			out = append(out, c10Stmt{Op: 'D', A: q.bracket()})
-		case 'L':
+		case 'L', 'I':
 			id := q.num()
 			if q.pos < len(q.s) && q.s[q.pos] == '.' {
 				q.pos++
@@ -89,7 +89,7 @@ func (q *c10Parser) block() []c10Stmt {
 			}
 
 			n := q.num()
-			out = append(out, c10Stmt{Op: 'L', ID: id, N: n, A: q.bracket()})
+			out = append(out, c10Stmt{Op: c, ID: id, N: n, A: q.bracket()})
 		default:
 			q.bad = true
 		}
@@ -134,11 +134,12 @@ func c10Kind(f []c10Stmt) byte {
 
 // c10Valid: kind markers only at the start of a function; return-with-expression statements only
 // directly in a function that has a result (not in a deferred closure); `Z<f>` and `C<f>` name an
-// existing function, `Z<f>` one that has a result.
+// existing function, `Z<f>` one that has a result; `I<id>` names a loop of the same function (or
+// closure) body that encloses it.
 func c10Valid(p c10Prog) bool {
-	var ok func(b []c10Stmt, kind byte, top bool) bool
+	var ok func(b []c10Stmt, kind byte, top bool, loops []int) bool
 
-	ok = func(b []c10Stmt, kind byte, top bool) bool {
+	ok = func(b []c10Stmt, kind byte, top bool, loops []int) bool {
 		for i, s := range b {
 			switch s.Op {
 			case 'u', 'n':
@@ -158,11 +159,24 @@ func c10Valid(p c10Prog) bool {
 					return false
 				}
 			case 'D':
-				if !ok(s.A, 0, false) {
+				if !ok(s.A, 0, false, nil) {
 					return false
 				}
-			case 'T', 'L':
-				if !ok(s.A, kind, false) || !ok(s.B, kind, false) {
+			case 'T':
+				if !ok(s.A, kind, false, loops) || !ok(s.B, kind, false, loops) {
+					return false
+				}
+			case 'L':
+				if !ok(s.A, kind, false, append(append([]int{}, loops...), s.ID)) {
+					return false
+				}
+			case 'I':
+				in := false
+				for _, id := range loops {
+					in = in || id == s.ID
+				}
+
+				if !in || !ok(s.A, kind, false, loops) {
 					return false
 				}
 			}
@@ -172,7 +186,7 @@ func c10Valid(p c10Prog) bool {
 	}
 
 	for _, f := range p {
-		if !ok(f, c10Kind(f), true) {
+		if !ok(f, c10Kind(f), true, nil) {
 			return false
 		}
 	}
@@ -204,6 +218,17 @@ type c10Where struct {
 	inTry   bool // inside a try body of this function (a later raise is caught here)
 	depth   int
 	kind    byte // result kind of the function whose body this is (0 inside a deferred closure)
+	loops   []c10LoopRef // enclosing loops of this function (or closure) body whose counter an `if` may test
+}
+
+type c10LoopRef struct{ id, n int }
+
+// inLoopOf: the context of the body of loop id (n passes) entered from w.
+func (w c10Where) inLoopOf(id, n int) c10Where {
+	w.inLoop, w.inCatch = true, false
+	w.loops = append(append([]c10LoopRef{}, w.loops...), c10LoopRef{id, n})
+
+	return w
 }
 
 func (g *c10Gen) emit() c10Stmt {
@@ -249,7 +274,7 @@ func (g *c10Gen) stmt(w c10Where) []c10Stmt {
 	}
 
 	for {
-		switch k := g.r.Intn(23); {
+		switch k := g.r.Intn(26); {
 		case k < 3:
 			return []c10Stmt{g.emit()}
 		case k < 5 && !g.goOnly:
@@ -266,7 +291,7 @@ func (g *c10Gen) stmt(w c10Where) []c10Stmt {
 			return []c10Stmt{{Op: 'T', A: body, B: cat}, g.emit()}
 		case k < 13 && deepOK:
 			d := in
-			d.inLoop, d.inDefer, d.inCatch, d.inTry, d.kind = false, true, false, false, 0
+			d.inLoop, d.inDefer, d.inCatch, d.inTry, d.kind, d.loops = false, true, false, false, 0, nil
 			body := g.block(d, 0)
 
 			if g.r.Intn(3) == 0 {
@@ -282,11 +307,9 @@ func (g *c10Gen) stmt(w c10Where) []c10Stmt {
 			}
 		case k < 18 && deepOK:
 			g.loopID++
-			l := in
-			l.inLoop, l.inCatch = true, false
-			id := g.loopID
+			id, n := g.loopID, 1+g.r.Intn(3)
 
-			return []c10Stmt{{Op: 'L', ID: id, N: 1 + g.r.Intn(3), A: g.block(l, 1)}, g.emit()}
+			return []c10Stmt{{Op: 'L', ID: id, N: n, A: g.block(in.inLoopOf(id, n), 1)}, g.emit()}
 		case k < 19 && w.inLoop:
 			if g.r.Intn(2) == 0 {
 				return []c10Stmt{{Op: 'B'}}
@@ -297,8 +320,15 @@ func (g *c10Gen) stmt(w c10Where) []c10Stmt {
 			return []c10Stmt{{Op: 'V'}}
 		case k == 20 && deepOK && !g.goOnly:
 			return g.unwindShape(in)
-		case k > 20 && w.kind != 0:
+		case k > 20 && k < 23 && w.kind != 0:
 			return []c10Stmt{g.retExpr(w)}
+		case k == 23 && deepOK && len(w.loops) > 0:
+			// `if i == k { ... }`: the block runs on one pass of an enclosing loop only
+			l := w.loops[g.r.Intn(len(w.loops))]
+
+			return []c10Stmt{{Op: 'I', ID: l.id, N: g.r.Intn(l.n), A: g.block(in, 1)}, g.emit()}
+		case k > 23 && deepOK:
+			return g.lateRetShape(in)
 		}
 	}
 }
@@ -347,7 +377,7 @@ func (g *c10Gen) retShape(w c10Where) []c10Stmt {
 		out = append(out, g.some(in)...)
 
 		d := in
-		d.inLoop, d.inDefer, d.inCatch, d.inTry, d.kind = false, true, false, false, 0
+		d.inLoop, d.inDefer, d.inCatch, d.inTry, d.kind, d.loops = false, true, false, false, 0, nil
 		body := []c10Stmt{g.emit()}
 
 		switch g.r.Intn(4) {
@@ -382,6 +412,118 @@ func (g *c10Gen) retShape(w c10Where) []c10Stmt {
 	g.budget -= 4
 
 	return out
+}
+
+// lateRetShape generates the family "a return statement written AHEAD of the defer statements of
+// its function, executed AFTER they have registered calls": a loop whose body first leaves the
+// function on a later pass and registers deferred calls on the earlier ones.
+//
+//	for i := 0; i < n; i++ {            n = 2..4; optionally one more loop inside or around
+//	    if i == k { ...; return }       1 <= k < n; bare return / return <expr> (result kinds) /
+//	                                    sometimes break or continue; optionally under a try
+//	    ...
+//	    defer ...                       1..2 defer statements, each optionally inside a try body, a
+//	                                    catch block, an inner loop (several calls per pass) or an
+//	                                    `if i == j` (registered on one pass only)
+//	    ...
+//	}
+//	...
+//
+// Every deferred call registered on the passes before k must run exactly once, last registered
+// first, when the return is executed.  Free positions are filled by markers and, less often, by
+// the ordinary generator.
+func (g *c10Gen) lateRetShape(w c10Where) []c10Stmt {
+	w.depth += 3
+
+	g.loopID++
+	id, n := g.loopID, 2+g.r.Intn(3)
+	k := 1 + g.r.Intn(n-1)
+	lw := w.inLoopOf(id, n)
+
+	fill := func(c c10Where) []c10Stmt {
+		switch g.r.Intn(6) {
+		case 0, 1:
+			return []c10Stmt{g.emit()}
+		case 2:
+			return g.stmt(c)
+		}
+
+		return nil
+	}
+
+	// the statement that leaves
+	var exit c10Stmt
+
+	switch x := g.r.Intn(8); {
+	case x == 0:
+		exit = g.leave()
+	case x < 5 && w.kind != 0:
+		exit = g.retExpr(w)
+	default:
+		exit = c10Stmt{Op: 'X'}
+	}
+
+	leaveB := append(fill(lw), exit)
+
+	if !g.goOnly && g.r.Intn(5) == 0 {
+		leaveB = []c10Stmt{{Op: 'T', A: leaveB, B: []c10Stmt{g.emit()}}}
+	}
+
+	cond := c10Stmt{Op: 'I', ID: id, N: k, A: leaveB}
+
+	var body []c10Stmt
+
+	if !g.goOnly && g.r.Intn(6) == 0 {
+		body = append(fill(lw), c10Stmt{Op: 'T', A: []c10Stmt{cond, g.emit()}, B: []c10Stmt{g.emit()}})
+	} else {
+		body = append(fill(lw), cond)
+	}
+
+	// the defer statements, behind the return in text order
+	for nd := 1 + g.r.Intn(2); nd > 0; nd-- {
+		body = append(body, fill(lw)...)
+
+		d := w
+		d.inLoop, d.inDefer, d.inCatch, d.inTry, d.kind, d.loops = false, true, false, false, 0, nil
+		db := []c10Stmt{g.emit()}
+
+		switch g.r.Intn(5) {
+		case 0:
+			db = append([]c10Stmt{{Op: 'V'}}, db...)
+		case 1:
+			db = append(db, g.some(d)...)
+		}
+
+		ds := c10Stmt{Op: 'D', A: db}
+
+		switch y := g.r.Intn(10); {
+		case y == 0 && !g.goOnly:
+			ds = c10Stmt{Op: 'T', A: []c10Stmt{ds, g.emit()}, B: []c10Stmt{g.emit()}}
+		case y == 1 && !g.goOnly:
+			ds = c10Stmt{Op: 'T', A: []c10Stmt{{Op: 'R'}}, B: []c10Stmt{ds, g.emit()}}
+		case y == 2:
+			g.loopID++
+			ds = c10Stmt{Op: 'L', ID: g.loopID, N: 2, A: []c10Stmt{ds}}
+		case y == 3:
+			ds = c10Stmt{Op: 'I', ID: id, N: g.r.Intn(k), A: []c10Stmt{ds}}
+		}
+
+		body = append(body, ds)
+	}
+
+	body = append(body, fill(lw)...)
+	cur := c10Stmt{Op: 'L', ID: id, N: n, A: body}
+
+	// optionally one more loop around (the whole shape runs again while the function is still
+	// active only if the inner loop was left by break/continue)
+	if g.r.Intn(6) == 0 {
+		g.loopID++
+		cur = c10Stmt{Op: 'L', ID: g.loopID, N: 2, A: append(fill(w), cur, g.emit())}
+	}
+
+	g.budget -= 5
+
+	return append(append(fill(w), cur, g.emit()), fill(w)...)
 }
 
 // leave is a break or a continue.
@@ -498,18 +640,26 @@ func c10Generate(r *rand.Rand, maxDeep int, goOnly bool) c10Prog {
 	for f := 0; f < g.nfuncs; f++ {
 		w := c10Where{fn: f, kind: g.kinds[f]}
 
+		// a quarter of the functions: the family "return ahead of the defer statements, executed
+		// after them", as the first statement of the body
+		var late []c10Stmt
+
+		if r.Intn(4) == 0 {
+			late = g.lateRetShape(w)
+		}
+
 		if g.kinds[f] == 0 {
-			p[f] = g.block(w, 1)
+			p[f] = append(late, g.block(w, 1)...)
 
 			continue
 		}
 
 		var body []c10Stmt
 
-		if r.Intn(2) == 0 {
+		if late == nil && r.Intn(2) == 0 {
 			body = g.retShape(w)
 		} else {
-			body = g.block(w, 1)
+			body = append(late, g.block(w, 1)...)
 		}
 
 		p[f] = append([]c10Stmt{{Op: g.kinds[f]}}, body...)
@@ -535,6 +685,10 @@ func c10LexBreakInTry(b []c10Stmt, inTry bool) bool {
 			if c10LexBreakInTry(s.A, false) {
 				return true
 			}
+		case 'I':
+			if c10LexBreakInTry(s.A, inTry) {
+				return true
+			}
 		}
 	}
 
@@ -546,7 +700,7 @@ func c10Depth(b []c10Stmt) int {
 
 	for _, s := range b {
 		x := 0
-		if s.Op == 'T' || s.Op == 'D' || s.Op == 'L' {
+		if s.Op == 'T' || s.Op == 'D' || s.Op == 'L' || s.Op == 'I' {
 			x = 1 + c10Depth(s.A)
 			if y := 1 + c10Depth(s.B); y > x {
 				x = y
